@@ -102,9 +102,12 @@ def drive_all(item, em=None, used=False):
             d = (t // 4 ** q) % 4
             e[q] = d in (1, 2)
             e[n + q] = d in (2, 3)
-        f = float(em.error_probability(e, code, p))
+        # the error comes in the array types callers use
+        ev = e if t % 4 == 0 else (e.astype(np.int64) if t % 4 == 1 else
+                                   (e.astype(bool) if t % 4 == 2 else e.astype(np.uint64)))
+        f = float(em.error_probability(ev, code, p))
         with np.errstate(divide='ignore'):
-            lg = float(em.error_probability(e, code, p, log_output=True))
+            lg = float(em.error_probability(ev, code, p, log_output=True))
         k = round(f * scale)
         lin.append(int(k) if abs(f * scale - k) <= 1e-9 * max(1.0, k) else -1)
         g = math.exp(lg) if lg > -700 else 0.0
